@@ -5,7 +5,6 @@ import (
 	"cmp"
 	"context"
 	"fmt"
-	"maps"
 	"slices"
 	"strings"
 	"sync"
@@ -428,12 +427,20 @@ func (s *MemCachedStore) persist(isSync bool) (int, error) {
 		s.ps = tempstore.ps
 	} else {
 		// We're toast. We'll try to still keep proper state, but OOM
-		// killer will get to us eventually.
-		maps.Copy(tempstore.mem, s.mem)
-		maps.Copy(tempstore.stor, s.stor)
+		// killer will get to us eventually. The tempstore can still be
+		// read by someone (without any lock), so it is not to be changed:
+		// move what it has into the new maps unless they have newer values.
+		for k, v := range tempstore.mem {
+			if _, ok := s.mem[k]; !ok {
+				s.mem[k] = v
+			}
+		}
+		for k, v := range tempstore.stor {
+			if _, ok := s.stor[k]; !ok {
+				s.stor[k] = v
+			}
+		}
 		s.ps = tempstore.ps
-		s.mem = tempstore.mem
-		s.stor = tempstore.stor
 	}
 	s.mut.Unlock()
 	return keys, err
